@@ -104,7 +104,7 @@ def plans(draw, sers=SERS, algs=None, encs=None, max_recipients=4, allow_zip=Tru
         kid = None if headerless else (f"r{i}" if (n > 1 or draw(st.booleans())) else None)
         rec = {"alg": alg, "key": gk.key_to_record(key), "header": hdr or None, "kid": kid}
         if alg in rjwe.PBES2 and draw(st.booleans()):
-            rec["p2c"] = draw(st.integers(1, 64))
+            rec["p2c"] = draw(st.one_of(st.integers(1, 64), st.integers(1, 64), st.sampled_from([1000, 4096, 10001, 32768])))
             rec["p2s"] = draw(st.binary(min_size=8, max_size=24)).hex()
         recipients.append(rec)
     protected = {"enc": enc}
